@@ -1,4 +1,5 @@
 INIT Init
 NEXT Next
 INVARIANT Report
+INVARIANT RetRecord
 INVARIANT Finished
